@@ -7,6 +7,7 @@ import os
 from vlib import x_handlers as xh
 
 _ETAGS = None
+EXTRA = ["Model/HandlersCanon.vo"]      # what the correspondence files import beyond the Props dependencies
 
 
 def etags():
